@@ -2,7 +2,7 @@
    The OCaml driver (ocaml/modelrun.ml) and the in-Coq cross-check both go through dispatch. *)
 From RcProxy Require Import Base.Bytes Base.Sx Base.Dec Gen.Generated Spec.KeySlot Model.Crc16
   Spec.RespGrammar Spec.SplitSpec Spec.CommandSpec
-  Spec.RouteSpec Model.RespBuf Model.Commands Model.ClientCodec Model.ClientFeed Model.ServerCodec Model.Route Model.AuthIp Model.Cluster Model.Proxy Model.Buffers.
+  Spec.RouteSpec Model.RespBuf Model.Commands Model.ClientCodec Model.ClientFeed Model.ServerCodec Model.Route Model.AuthIp Model.Cluster Model.Proxy Model.Buffers Model.Info.
 
 Definition e_hash (a : sx) : sx :=
   match a with SB k => sN (Hash k) | _ => bad end.
@@ -1067,6 +1067,39 @@ Definition o_buf (a : sx) : sx :=
   | _ => bad
   end.
 
+(* ---- INFO reader (C14) ---- input: payload bytes; output (err) | (loading link version) *)
+Definition sx_info (o : option info) : sx :=
+  match o with
+  | None => SL [SB (bs "err")]
+  | Some i => SL [sbool (in_loading i); SB (in_link i); SB (in_version i)]
+  end.
+Definition e_info (a : sx) : sx := match a with SB msg => sx_info (parse_info msg) | _ => bad end.
+
+(* oracle: when every line after the first is empty, a "# Section" title or a key:value field, the
+   three values are those of the exact-key lookup (the last field with that very key) *)
+Definition is_field_line (l : bytes) : bool :=
+  match l with
+  | [] => true
+  | c :: _ => if N.eqb c 35 then true else match split_colon l with Some _ => true | None => false end
+  end.
+Definition o_info (a : sx) : sx :=
+  match a with
+  | SL [SB msg; out] =>
+      match msg with
+      | [] => if sx_eqb out (SL [SB (bs "err")]) then ok else viol "info-empty-payload-accepted" []
+      | c :: _ =>
+          if N.eqb c 45 then (if sx_eqb out (SL [SB (bs "err")]) then ok else viol "info-error-text-accepted" [])
+          else
+            let lines := split_crlf (match after_lf msg with Some r => r | None => msg end) in
+            let fields := filter (fun l => match l with [] => false | c :: _ => negb (N.eqb c 35) end) lines in
+            if forallb is_field_line lines then
+              if sx_eqb out (sx_info (Some (spec_info fields))) then ok
+              else viol "info-field-not-read-by-its-exact-key" [sx_info (Some (spec_info fields)); out]
+            else ok
+      end
+  | _ => bad
+  end.
+
 Definition entries : list (bytes * (sx -> sx)) :=
   [ (bs "hash", e_hash);
     (bs "keyslot", e_keyslot);
@@ -1090,7 +1123,9 @@ Definition entries : list (bytes * (sx -> sx)) :=
     (bs "loop", e_loop);
     (bs "o_loop", o_loop);
     (bs "buf", e_buf);
-    (bs "o_buf", o_buf) ].
+    (bs "o_buf", o_buf);
+    (bs "info", e_info);
+    (bs "o_info", o_info) ].
 
 Definition dispatch (name : bytes) (a : sx) : sx :=
   match assoc_b name entries with
